@@ -92,6 +92,9 @@ func valEq(a, b Value) bool {
 	case bool:
 		return x == asBool(b)
 	case string:
+		if ab, ok := b.(atomVal); ok {
+			return string(ab) == x
+		}
 		s, ok := b.(string)
 		return ok && s == x
 	case atomVal:
@@ -497,20 +500,7 @@ func evalQuant(q *EQuant, env *EvalEnv, vi int) Value {
 	}
 	for _, d := range dom {
 		child.Vars[q.Vars[vi]] = d
-		var r bool
-		func() {
-			defer func() {
-				if rec := recover(); rec != nil {
-					if _, ok := rec.(evalErr); ok {
-						// incomparable element kinds: skip this instance
-						r = q.Forall
-						return
-					}
-					panic(rec)
-				}
-			}()
-			r = asBool(evalQuant(q, child, vi+1))
-		}()
+		r := asBool(evalQuant(q, child, vi+1))
 		if q.Forall && !r {
 			return false
 		}
